@@ -1,6 +1,7 @@
 CONSTANTS
   MaxAttrs = 2
   Names3 = {"class", "ref", "onFoo", "spread", "dir"}
-  TreeDepth = 2
+  WithInput = TRUE
+  TreeDepth = 1
 INIT Init
 NEXT Next
